@@ -6,4 +6,5 @@
 #define AMAXS 4
 #endif
 typedef int bl_str; typedef int bl_ast;
+enum { BL_OP_INC = 1001, BL_OP_DEC = 1002 };
 #endif
